@@ -639,12 +639,19 @@ func CreateState(filename string, reader *files.Reader, fileOffset int, lineNumb
 }
 
 func (es *SearchEngineState) Copy() *SearchEngineState {
+	// A snapshot must not share bindings with the state it was taken from:
+	// maps are references, so copy the environment and the per-loop variables.
+	loopStack := es.loopStack.Copy()
+	for i := 0; i < int(loopStack.Size()); i++ {
+		loopState := loopStack.Index(i)
+		loopState.variables = loopState.variables.Copy().Hashmap()
+	}
 	return &SearchEngineState{
-		loopStack:         es.loopStack.Copy(),
+		loopStack:         loopStack,
 		backtrack:         es.backtrack.Copy(),
 		variableStack:     es.variableStack.Copy(),
 		callStack:         es.callStack.Copy(),
-		environment:       es.environment,
+		environment:       es.environment.Copy().Hashmap(),
 		status:            es.status,
 		programCounter:    es.programCounter,
 		currentFileOffset: es.currentFileOffset,
